@@ -1027,7 +1027,8 @@ def run(ctx):
     nproc = ctx.budget(6, 8)
     obs = run_impl(cases, watchdog, nproc=nproc)
     # a hang / runner failure is re-run once alone, so that machine load is not mistaken for a hang
-    redo = [i for i, o in enumerate(obs) if o.get('kind') in ('hang', 'crash', 'runner-failed')]
+    redo = [i for i, o in enumerate(obs) if o.get('kind') in ('hang', 'crash', 'runner-failed')
+            and not cases[i].get('watchdog')]      # the open-finding probe is expected to hang
     if redo and len(redo) <= 6:
         ctx.count('re-run-after-hang-or-crash', len(redo))
         again = run_impl([cases[i] for i in redo], watchdog, nproc=2)
